@@ -36,6 +36,7 @@ func main() {
 		if len(os.Args) > 2 {
 			fmt.Sscan(os.Args[2], &n)
 		}
+		fmt.Print("selftest: ", enga.Conformance(400))
 		a, ia := enga.SelfTest(n)
 		c, ic := engc.SelfTest(n)
 		fmt.Printf("selftest: determinism held: engine A %d executions %v; engine C %d executions %v\n", a, ia, c, ic)
